@@ -307,7 +307,8 @@ class Wav(AbstractWav):
 
     def _getIndexAtTime(self, startTime: float) -> int:
         """Gets the index in the frame list for the given time"""
-        return round(startTime * self.frameRate * self.sampleWidth)
+        # Round to a whole sample first: the index must never fall inside a sample
+        return round(startTime * self.frameRate) * self.sampleWidth
 
     @classmethod
     def open(cls, fn: str) -> "Wav":
